@@ -419,8 +419,7 @@ def r4_index_pair(ck, F, R="C01-R4"):
 
 
 # ---------------------------------------------------------------------------------------
-def r5_finish_order(ck, F):
-    R = "C01-R5"
+def r5_finish_order(ck, F, R="C01-R5"):
     b = F.body(A("writer_into_inner"))
     ws = calls(b, A("write_block"))
     data = [s for s, c, t in ws if is_self_field(b.arg_exprs(s)[1], "block_writer")]
